@@ -23,7 +23,9 @@ RULE = ('(a) programs from the concolic generator (single-operation buckets for 
         'instruction by instruction on UTPM operands with byte snapshots of all registers and constants; (b) traced programs with UTPM '
         'recording inputs, re-evaluation inputs and seeds snapshotted; (c) aliasing buckets: binary operator/function with both operands '
         'the same object, in-place operators with the right operand the same object / a reversed view / the transpose / a broadcast row of '
-        'the left operand.  Non-trivial = D >= 2 and rank >= 1 (loop order only matters then); distinct by descriptor hash')
+        'the left operand; (d) results of arithmetic / functions / products must not share memory with an operand; (e) pb-direct:* pullbacks called '
+        'directly with out=None leave seed, operands and forward result byte-identical; (f) recall:* an expression evaluated again after its '
+        'operand object was updated in place.  Non-trivial = D >= 2 and rank >= 1 (loop order only matters then); distinct by descriptor hash')
 ASSUMPTIONS = [
     'byte-wise comparison of .data buffers (and of ndarray constants) before/after',
     'aliased vs copied evaluation compared to 1e-13 relative (same arithmetic)',
